@@ -8,7 +8,7 @@ import random
 import sys
 import tempfile
 
-from common import (Build, MachineryError, Verdict, make_cfg, run_children,
+from common import (one_case, Build, MachineryError, Verdict, make_cfg, run_children,
                     run_tlc, seed, shard, NCPU)
 
 SINGLE_INV = ['IterLawC', 'InLawC', 'FlatLawC', 'NormalizeLawC', 'LinExtLaw']
@@ -100,7 +100,8 @@ def replay(build, v, mode, world, cases, extra=None):
             sig = 'C20 %s %s expected=%s got=%s ctx=%s' % (
                 m['impl'], m['what'], json.dumps(m['expected']),
                 json.dumps(m['got']), json.dumps(m['ctx'], sort_keys=True))
-            v.violation(sig, m)
+            v.violation(sig, m, one_case('replay_declalgebra.py', impl, job,
+                                         m))
     v.cov['traces_validated_against_impl'] += 2 * len(cases)
 
 
